@@ -152,12 +152,10 @@ pub fn parser<'a>() -> impl Parser<'a, &'a str, Dqe, Err<'a>> {
             })
             .boxed();
 
-        let mb_usize = text::int(10)
-            .or_not()
-            .padded()
-            .map(|v: Option<&str>| v.map(|v| v.parse::<usize>().unwrap()));
+        let mb_usize = number::<usize>().or_not().padded();
 
         let slice_op = mb_usize
+            .clone()
             .then_ignore(just("..").padded())
             .then(mb_usize)
             .labelled("slice range (start..end)")
@@ -694,6 +692,10 @@ mod test {
             TestCase {
                 string: "*",
                 err_text: "found end of input expected '*', '&', '~', rust identifier, pointer cast, or '('",
+            },
+            TestCase {
+                string: "var1[1..99999999999999999999]",
+                err_text: "number too large to fit in target type",
             },
         ];
 
